@@ -64,11 +64,7 @@ ASBUILT_THOROUGH = [
 # what the real code is known to do differently from the documented behaviour: (class prefix, clause, event) -> finding key
 CACHE_KEY = KEY + ":cache_start_forgets_cached_announcements"
 KEYS_KEY = KEY + ":publish_resigns_other_services_with_latest_key"
-EXPECTED = {("cache_late", "XI_not_delivered", "Subscribe"): CACHE_KEY,
-            ("cache_shrink", "XI_cache_lost_announcement", "S2C"): CACHE_KEY,
-            ("cache_shrink", "XI_delivered_unexpectedly", "S2C"): CACHE_KEY,
-            ("cache_replay", "XI_NeverBackwards_delivery", "S2C"): CACHE_KEY,
-            ("twokeys", "XI_published_under_key_of_other_service", "C2S"): KEYS_KEY}
+CACHE_CLAUSES = {("XI_not_delivered", "Subscribe"), ("XI_cache_lost_announcement", "S2C"), ("XI_NeverBackwards_delivery", "S2C")}
 
 
 def started_from_cache(tr, l, c):
@@ -86,9 +82,10 @@ def started_from_cache(tr, l, c):
 def key_of(tr, l, clause):
     e = tr["events"][l - 1]
     cls = tr["consts"]["cls"]
-    k = EXPECTED.get((cls, clause, e["ev"]))
-    if k == KEYS_KEY or (k == CACHE_KEY and started_from_cache(tr, l, e.get("c"))):
-        return k + ":" + clause
+    if cls == "twokeys" and (clause, e["ev"]) == ("XI_published_under_key_of_other_service", "C2S"):
+        return KEYS_KEY + ":" + clause
+    if cls.startswith("cache_") and (clause, e["ev"]) in CACHE_CLAUSES and started_from_cache(tr, l, e.get("c")):
+        return CACHE_KEY + ":" + clause
     return "trace:%s:%s" % (clause, e["ev"])
 
 
@@ -99,6 +96,38 @@ def what_of(tr, l, clause):
     return ("real IntroducerService / IntroducerClient disagree with IntroducerService.tla at event %d (%s), clause %s; scenario "
             "class %s; last events %s; observed %s" % (l, json.dumps(e), clause, tr["consts"]["cls"], json.dumps(hist),
                                                         json.dumps(obs)[:1500]))
+
+
+def selftest(ctx, traces):
+    """binding demonstration (DESIGN.md 5.5): a valid trace with one event dropped, or one logged field changed, must be rejected"""
+    import copy
+    from vfw import core
+    bad = []
+    for tr in traces:
+        if tr["consts"]["cls"] != "grid":
+            continue
+        idx = [i for i, e in enumerate(tr["events"]) if e["ev"] == "S2C" and any(e["obs"]["out"].values())]
+        if not idx:
+            continue
+        a = copy.deepcopy(tr)
+        del a["events"][idx[0]]
+        b = copy.deepcopy(tr)
+        o = b["events"][idx[-1]]["obs"]["out"]
+        c = [k for k in o if o[k]][0]
+        o[c][0]["body"] = "zz"
+        bad += [a, b]
+        if len(bad) >= 24:
+            break
+    tf = os.path.join(ctx.workdir, "tampered.json")
+    with open(tf, "w") as f:
+        json.dump(bad, f)
+    r = core.run_tlc("net/TraceIntroducerService", "SPECIFICATION TraceSpec\nINVARIANT TraceOK\nCHECK_DEADLOCK FALSE\n",
+                     ctx.workdir, mode="trace", workers=1, env={"TRACE_FILE": tf}, cont=True, timeout=900)
+    rej = {t[1] for t in r.tuples("VF_REJECT")}
+    if r.errors or len(rej) != len(bad):
+        ctx.report("selftest:tampered_trace_accepted", "binding self-test: %d of %d tampered traces were rejected (%s)"
+                   % (len(rej), len(bad), r.errors[:2]))
+    ctx.notes.append("binding self-test: %d/%d tampered traces (one event dropped / one delivered body changed) rejected" % (len(rej), len(bad)))
 
 
 def run(ctx):
@@ -137,7 +166,7 @@ def run(ctx):
             ctx.report("spec:asbuilt:%s" % name, "the as-built variant %s of the Spec no longer violates %s: the demonstration "
                        "that backs a known finding is gone" % (name, rule))
 
-    n = dict(grid=40, events=50, cache=3, twokeys=2) if ctx.quick else dict(grid=900, events=70, cache=40, twokeys=10)
+    n = dict(grid=40, events=50, cache=3, twokeys=3) if ctx.quick else dict(grid=600, events=70, cache=30, twokeys=10)
     res = ctx.impl("harness/introsvc_driver.py", ["--grid", n["grid"], "--events", n["events"], "--cache", n["cache"],
                                                   "--twokeys", n["twokeys"]])
     traces = res["traces"]
@@ -165,3 +194,5 @@ def run(ctx):
                                                          for k in ("anns", "subs", "cache")}}, limit=3)
     ctx.notes.append("content of the batch: %s" % json.dumps(stats, sort_keys=True))
     ctx.trace("net/TraceIntroducerService", traces, key_of=key_of, what_of=what_of, batch=200)
+    if not ctx.quick:
+        selftest(ctx, traces)
